@@ -19,7 +19,9 @@ import ast
 from ..core import Ctx, key_of
 from ..model import AnchorMissing, const_str, norm, own_nodes
 from ..order import local_resolver, order_table
+from ..cfg import cfg_of
 from .c07 import scan_rules, sort_rules
+from .common import facts_of
 
 META = {
     "level": "other",
@@ -197,18 +199,38 @@ def run(ctx: Ctx):
             if t == "my_attr.provided" or (isinstance(e, ast.Call) and norm(e.func) == "self.provided"):
                 return False              # the child under consideration has no value of its own
             return None
+        # the conditions under which the call is reached: the must-facts at the call (enclosing tests AND earlier exits such as
+        # `if <parent was given nothing>: continue`).  The call must stay reachable when the parent's value is provided, and
+        # when it is inherited only: a clause all of whose literals are definitely false for such a parent blocks it.
+        node = cfg_of(inh).node_containing(c)
+        clauses = facts_of(inh).at(node) if node is not None else frozenset()
+
+        def lit(t_, pol, prov, inhd):
+            try:
+                e_ = ast.parse(t_, mode="eval").body
+            except SyntaxError:
+                return None
+            # any(<x>.provided for <x> in <the parent's attributes>): "the parent was given something" -- in the worst case
+            # nothing but the attribute in question, so it is as true as `provided`
+            if isinstance(e_, ast.Call) and norm(e_.func) == "any" and e_.args and isinstance(e_.args[0], ast.GeneratorExp) \
+                    and "parent" in norm(e_.args[0]) and norm(e_.args[0].elt).endswith(".provided"):
+                v_ = prov
+            elif isinstance(e_, ast.Call) and norm(e_.func) == "any" and e_.args and isinstance(e_.args[0], ast.GeneratorExp) \
+                    and "parent" in norm(e_.args[0]) and norm(e_.args[0].elt).endswith(".inherited"):
+                v_ = inhd
+            else:
+                v_ = ev(e_, prov, inhd)
+            return None if v_ is None else (v_ if pol else not v_)
         ok = True
-        und = False
-        for (i, b) in guards:
-            for prov, inhd in ((True, False), (False, True), (True, True)):
-                v = ev(i.test, prov, inhd)
-                if v is None:
-                    und = True
-                elif (v if b == "T" else not v) is False:
+        blocked = []
+        for prov, inhd in ((True, False), (False, True), (True, True)):
+            for cl in clauses:
+                if not any("parent" in t_ for (t_, _p) in cl):
+                    continue
+                vals = [lit(t_, p_, prov, inhd) for (t_, p_) in cl]
+                if vals and all(v_ is False for v_ in vals):
                     ok = False
-        if und and ok:
-            from ..model import Inconclusive
-            raise Inconclusive(f"inheritAttributes: guard {[norm(i.test) for i, _ in guards]} is not a formula over provided / inherited")
+                    blocked.append((prov, inhd, sorted(t_ for t_, _ in cl)))
         ctx.ob("R09.4", f"{inh.qual}: {norm(c)} under {[norm(i.test) for i, _ in guards]}", (inh, c), ok,
                "a value is passed on whether the parent provided or inherited it" if ok else
                "a value the parent inherited itself is not passed on: a container's priority stops one nesting level down and deeper "
